@@ -89,7 +89,7 @@ impl Sub for TopK {
         "topk"
     }
     fn cases(&self, tier: Tier) -> u32 {
-        tier.pick(3000, 40000)
+        tier.pick(4500, 60000)
     }
     fn max_shrink_iters(&self) -> u32 {
         1200
